@@ -314,6 +314,7 @@ def run(rep, facts, tier):
     rule_19_5(rep, fx)
     rule_19_7(rep, fx)
     rule_19_8(rep, fx)
+    rule_19_9(rep, fx)
 
     # ------------------------------------------------------------ R19.6 crossed roles (shared lint, rdv/swaplint.py)
     from rdv import swaplint
@@ -604,3 +605,165 @@ def rule_19_8(rep, fx):
                       'process_handshake, state %s: the received token\'s `%s` is never compared with the `%s` remembered in the state, although the other echoes are: a message in '
                       'which only this value was replaced is accepted' % (v['name'], tf, sf), ph.where())
     rep.floor('R19.8', n, 9, 'echoed fields of the two pending states')
+
+
+# ----------------------------------------------------------------------------- R19.9 (added after mutation round 4): the discovery-side driver of the handshake
+
+SD = 'discovery::secure_discovery::SecureDiscovery::'
+
+# state in which a handshake message arrives -> (handler, plugin call, outcome that means success, state afterwards, message sent back, remote authenticated now)
+# (DDS Security 1.1 section 8.3.2.11.x, figure 10: request -> reply -> final)
+DRIVER = {
+    'PendingRequestMessage': ('handshake_on_pending_request_message', 'begin_handshake_reply', 'PendingHandshakeMessage', 'PendingFinalMessage', True, False),
+    'PendingReplyMessage': ('handshake_on_pending_reply_message', 'process_handshake', 'OkFinalMessage', 'CompletedWithFinalMessageSent', True, True),
+    'PendingFinalMessage': ('handshake_on_pending_final_message', 'process_handshake', 'Ok', 'CompletedWithFinalMessageReceived', False, True),
+}
+
+
+def _snake(name):
+    out = ''
+    for ch in name:
+        out += ('_' + ch.lower()) if ch.isupper() and out else ch.lower()
+    return out
+
+
+def _agg_variant(t):
+    for x in _subterms19(t):
+        if x[0] == 'agg' and isinstance(x[1], str) and 'DiscHandshakeState::' in x[1]:
+            return x[1].rsplit('::', 1)[-1]
+    return None
+
+
+def _subterms19(t):
+    out = [t]
+    if isinstance(t, tuple):
+        for x in t[1:]:
+            if isinstance(x, tuple):
+                if x and isinstance(x[0], str):
+                    out.extend(_subterms19(x))
+                else:
+                    for y in x:
+                        if isinstance(y, tuple):
+                            out.extend(_subterms19(y))
+    return out
+
+
+def rule_19_9(rep, fx):
+    rep.rule('R19.9', 'the discovery-side driver follows the handshake: participant_stateless_message_read hands a handshake message to the handler of the state the exchange with that '
+                      'remote is in (Pending<X>Message -> handshake_on_pending_<x>_message, PendingRequestSend -> a new request, CompletedWithFinalMessageSent -> the final message again, '
+                      'otherwise nothing); each handler asks the plugin (begin_handshake_reply / process_handshake) and, exactly on the outcome that means success, sends and stores the '
+                      'answer, moves to the next state (request -> PendingFinalMessage, reply -> CompletedWithFinalMessageSent, final -> CompletedWithFinalMessageReceived; the same '
+                      'state the plugin stores) and reports the remote as authenticated only from the reply and final handlers; on any other result the state stays as it is and, where '
+                      'an own message is waiting to be resent, a rejected message resets its resend counter (forgeries cannot use up the resends)')
+    b = fx.find(SD + 'participant_stateless_message_read')
+    rep.analysed(b)
+    og = Origins(b, summaries=True)
+    P = Pos(b)
+    edges = list(switch_edges(b, fx, og))
+    state_edges = [(s_, t_, lab) for s_, t_, cond, lab in edges if cond[0] == 'discr' and has_call(cond, 'get_handshake_state') and cond[1][0] != 'call']
+    variants = [lab for _s, _t, lab in state_edges if isinstance(lab, str)]
+    if len(variants) < 6:
+        raise CheckBroken('R19.9: the match on the handshake state in participant_stateless_message_read has %d named arms, expected 6' % len(variants))
+    own = [(bb, t) for bb, t in b.calls() if callee_res(t).startswith(SD) and bb > 0 and
+           callee_res(t).rsplit('::', 1)[-1] not in ('get_handshake_state', 'is_stateless_msg_for_local_participant')]
+    for s_, t_, lab in state_edges:
+        if not isinstance(lab, str):
+            continue
+        if lab in DRIVER:
+            want = DRIVER[lab][0]
+            if want != 'handshake_on_' + _snake(lab):
+                raise CheckBroken('R19.9: handler name table out of step with the state names')
+        elif lab == 'PendingRequestSend':
+            want = 'try_sending_new_handshake_request_message'
+        elif lab == 'CompletedWithFinalMessageSent':
+            want = 'resend_final_handshake_message'
+        else:
+            want = None
+        others = [t2 for _s2, t2, l2 in state_edges if t2 != t_]
+        reach = b.reachable(t_, avoid_blocks=others) | {t_}
+        got = sorted(set(callee_res(t).rsplit('::', 1)[-1] for bb, t in own if bb in reach))
+        ok = got == ([want] if want else [])
+        if ok and want:
+            cb = [(bb, 'term') for bb, t in own if bb in reach]
+            for r in b.return_blocks():
+                if not P.every_path_passes((t_, 0), (r, 'term'), via_pos=cb) and (t_, 'term') not in cb:
+                    ok = False
+            # the message (or its sender) is what the handler gets
+            for bb, t in own:
+                if bb in reach:
+                    a1 = og.of_operand(t['args'][1], bb, 'term')
+                    ok = ok and term_has(a1, lambda x: x == ('param', 2))
+        rep.check(ok, 'R19.9', 'participant_stateless_message_read/%s' % lab, '%s -> %s' % (lab, want or 'nothing'),
+                  'participant_stateless_message_read: in handshake state %s the message is handled by %s, expected %s on every path: the three-message handshake with a genuine participant '
+                  'cannot complete (or a completed one is disturbed)' % (lab, got or 'nothing', want or 'nothing'), b.where())
+    # handlers
+    for state, (hname, pcall, outcome, nxt, sends, authd) in sorted(DRIVER.items()):
+        h = fx.find(SD + hname)
+        rep.analysed(h)
+        oh = Origins(h, summaries=True)
+        Ph = Pos(h)
+        eh = list(switch_edges(h, fx, oh))
+        res_edges = [(s_, t_, cond, lab) for s_, t_, cond, lab in primary_edges(h, eh) if cond[0] == 'discr' and has_call(cond, pcall)]
+        ok_e = [(s_, t_) for s_, t_, cond, lab in res_edges if lab == 'Ok' and cond[1][0] == 'call']
+        err_e = [(s_, t_) for s_, t_, cond, lab in res_edges if lab == 'Err' and cond[1][0] == 'call']
+        out_e = [(s_, t_) for s_, t_, cond, lab in res_edges if lab == outcome and cond[1][0] != 'call']
+        if not ok_e or not err_e or not out_e:
+            raise CheckBroken('R19.9: %s: match on the result of %s not found (Ok %d, Err %d, %s %d)' % (hname, pcall, len(ok_e), len(err_e), outcome, len(out_e)))
+        ups = [(bb, t) for bb, t in h.calls() if call_matches(t, 'SecureDiscovery::update_handshake_state')]
+        auth = [(bb, t) for bb, t in h.calls() if call_matches(t, 'SecureDiscovery::on_remote_participant_authenticated')]
+        writes = [(bb, t) for bb, t in h.calls() if callee_res(t).endswith('DataWriter::<D, SA>::write') or callee_res(t).endswith('::write') and 'DataWriter' in callee_res(t)]
+        stores = [(bb, t) for bb, t in h.calls() if callee_res(t).endswith('::insert') and has_field(oh.of_operand(t['args'][0], bb, 'term'), 'stored_authentication_messages')]
+
+        def dominated(bb, es):
+            return Ph.every_path_passes(None, (bb, 'term'), via_edges=es, from_entry=True)
+        # success region: the innermost switch edge on the plugin result that dominates the state update
+        ok = len(ups) == 1
+        vname = None
+        if ok:
+            ubb, ut = ups[0]
+            vname = _agg_variant(oh.of_operand(ut['args'][2], ubb, 'term'))
+            ok = vname == nxt and dominated(ubb, ok_e) and dominated(ubb, out_e)
+            dom = [(s_, t_) for s_, t_, cond, lab in res_edges if dominated(ubb, [(s_, t_)])]
+            inner = [e for e in dom if all(e == e2 or Ph.every_path_passes(None, (e[0], 'term'), via_edges=[e2], from_entry=True) for e2 in dom)]
+            ok = ok and len(inner) == 1
+            if ok:
+                st = inner[0][1]
+                must = [('state update', [(ubb, 'term')])]
+                if sends:
+                    must.append(('answer sent', [(bb, 'term') for bb, _t in writes]))
+                    must.append(('answer stored for resending', [(bb, 'term') for bb, _t in stores]))
+                if authd:
+                    must.append(('remote reported authenticated', [(bb, 'term') for bb, _t in auth]))
+                for what, pos in must:
+                    good = bool(pos)
+                    for r in h.return_blocks():
+                        if not Ph.every_path_passes((st, 0), (r, 'term'), via_pos=pos) and (st, 'term') not in pos:
+                            good = False
+                    rep.check(good, 'R19.9', '%s/success/%s' % (hname, what.replace(' ', '-')), 'on %s: %s on every path' % (outcome, what),
+                              '%s: after the plugin accepted the message (%s) a path returns without: %s; the handshake with a genuine participant stalls in state %s'
+                              % (hname, outcome, what, state), h.where())
+        rep.check(ok, 'R19.9', '%s/next-state' % hname, '%s -> %s exactly on Ok(%s)' % (state, nxt, outcome),
+                  '%s does not move the exchange to %s exactly when %s returns Ok with outcome %s (it sets %s, or sets it on another result, or not once): discovery and plugin disagree on '
+                  'where the handshake is, so the next genuine message is handled in the wrong state' % (hname, nxt, pcall, outcome, vname), h.where())
+        # the plugin stores the state of the same name
+        pb = find_method(fx, pcall)
+        same = any(st.get('s') == 'assign' and st['rv'].get('r') == 'agg' and (st['rv'].get('variant') == nxt) and 'BuiltinHandshakeState' in (st['rv'].get('adt') or '')
+                   for _bb, _si, st in pb.statements())
+        rep.check(same, 'R19.9', '%s/plugin-agrees' % hname, '%s builds BuiltinHandshakeState::%s' % (pcall, nxt),
+                  'the plugin function %s never builds the state %s that discovery assumes after it succeeded' % (pcall, nxt), pb.where())
+        # no progress and no authentication on any other result
+        okn = all(dominated(bb, out_e) and dominated(bb, ok_e) for bb, _t in auth) and (bool(auth) == authd)
+        rep.check(okn, 'R19.9', '%s/authenticated-only-on-success' % hname, 'on_remote_participant_authenticated %s' % ('only under Ok(%s)' % outcome if authd else 'not called'),
+                  '%s reports the remote participant as authenticated on a path where the plugin did not return Ok(%s)%s' % (hname, outcome, '' if authd else ' (the request handler must not report it at all)'),
+                  h.where())
+        # a rejected message does not use up the resends of the own pending message
+        if state != 'PendingRequestMessage':
+            rs = [(bb, 'term') for bb, t in h.calls() if call_matches(t, 'SecureDiscovery::reset_stored_message_resend_counter')]
+            good = bool(rs)
+            for s_, t_ in err_e:
+                for r in h.return_blocks():
+                    if not Ph.every_path_passes((t_, 0), (r, 'term'), via_pos=rs) and (t_, 'term') not in rs:
+                        good = False
+            rep.check(good, 'R19.9', '%s/rejected-resets-resends' % hname, 'Err from %s => reset_stored_message_resend_counter' % pcall,
+                      '%s: a message the plugin rejects does not reset the resend counter of the own message that is waiting for its answer: forged messages can use up the resends, '
+                      'after which the genuine handshake cannot complete' % hname, h.where())
